@@ -149,6 +149,7 @@ def translate(text, fname):
   const uint64_t s_rbx = rbx, s_rbp = rbp, s_r12 = r12, s_r13 = r13, s_r14 = r14, s_r15 = r15;
   int CF = vk_junk (9) & 1, ZF = vk_junk (10) & 1, SF = vk_junk (11) & 1, OF = vk_junk (12) & 1;
   uint64_t t_a, t_b, t_r, t_c; unsigned __int128 t_w;
+  uint64_t vr[16][4] = { VK_VR_INIT };
   %s
   VK_FELL_OFF ();
   return rax; }
@@ -175,7 +176,55 @@ def flags_zs(w):
     return "ZF = ((t_r & %s) == 0); SF = (int) ((t_r >> %d) & 1);" % (mask(w), w - 1)
 
 
+VMOVS = {"vmovdqu": (1, 0), "vmovdqa": (1, 1), "vmovups": (1, 0), "vmovaps": (1, 1), "vmovntdq": (1, 1), "vlddqu": (1, 0),
+         "movdqu": (0, 0), "movdqa": (0, 1), "movups": (0, 0), "movaps": (0, 1), "movntdq": (0, 1), "lddqu": (0, 0)}
+
+
+def vec_ins(mn, ops):
+    """whole-register vector moves (the only SSE/AVX instructions modelled): register file vr[16][4] of 64-bit lanes.
+    VEX forms zero the upper lanes of the destination register on xmm writes, legacy SSE forms preserve them (SDM)."""
+    if mn == "vzeroupper":
+        return [" ".join("vr[%d][2] = 0; vr[%d][3] = 0;" % (k, k) for k in range(16))]
+    vex, aligned = VMOVS[mn]
+    if len(ops) != 2:
+        raise AsmError("vector move operands")
+    def vreg(x):
+        m = re.match(r"^([xy])mm(\d+)$", x.strip().lower())
+        return (m.group(1), int(m.group(2))) if m else None
+    def vmem(x):
+        x = re.sub(r"^(oword|yword|xmmword|ymmword|dqword)\s+(ptr\s+)?", "", x.strip(), flags=re.I)
+        if not (x.startswith("[") and x.endswith("]")):
+            raise AsmError("operand " + x)
+        return parse_addr(x[1:-1])
+    d, sr = vreg(ops[0]), vreg(ops[1])
+    out = []
+    if d and sr:
+        n = 4 if d[0] == "y" else 2
+        out += ["vr[%d][%d] = vr[%d][%d];" % (d[1], i, sr[1], i) for i in range(n)]
+        if vex and n == 2:
+            out += ["vr[%d][2] = 0; vr[%d][3] = 0;" % (d[1], d[1])]
+        return out
+    if d:
+        n = 4 if d[0] == "y" else 2; a = vmem(ops[1])
+        if aligned:
+            out.append('CHECK (((%s) & %d) == 0, "aligned vector load from an aligned address");' % (a, 8 * n - 1))
+        out += ["vr[%d][%d] = *vk_at (%s + %dULL);" % (d[1], i, a, 8 * i) for i in range(n)]
+        if vex and n == 2:
+            out += ["vr[%d][2] = 0; vr[%d][3] = 0;" % (d[1], d[1])]
+        return out
+    if sr:
+        n = 4 if sr[0] == "y" else 2; a = vmem(ops[0])
+        if aligned:
+            out.append('CHECK (((%s) & %d) == 0, "aligned vector store to an aligned address");' % (a, 8 * n - 1))
+        # all lanes are read before the first is written (one instruction)
+        out += ["{ uint64_t t_v[4]; " + " ".join("t_v[%d] = vr[%d][%d];" % (i, sr[1], i) for i in range(n)) + " " + " ".join("*vk_at (%s + %dULL) = t_v[%d];" % (a, 8 * i, i) for i in range(n)) + " }"]
+        return out
+    raise AsmError("vector move without a register operand")
+
+
 def ins(mn, ops, lab):
+    if mn in VMOVS or mn == "vzeroupper":
+        return vec_ins(mn, ops)
     o = [parse_operand(x) for x in ops] if mn not in ("jmp", "call") and not (mn.startswith("j") and mn[1:] in CC) and mn not in ("jrcxz", "jecxz") else []
     def W():
         ws = [x.w for x in o if x.kind != "imm"]
